@@ -29,8 +29,8 @@ TEXT = {
                   "1e120 the magnitude is finite and within 11*2^-53 relative (+2^-1075) of sqrt(x^2+y^2), in both branches (B). Proved (E, exact reals): Angle::new(p,d) "
                   "denotes p*pi/d modulo whole turns within 1e-10 for every real p,d and every path (fast, negative, general), a negative argument gives the forward "
                   "rotation; new_from_cartesian has total arg(x+iy) and the Euclidean norm. Proved (B): for -2^41 <= x < 0 the float total of Angle::new(x, PI) lies in "
-                  "[0, 2pi_f + 1e-10 + (24|x|+46)*2^-53] - the forward angle within one turn (negative_forward_float). Partial: the one-turn clause for divisors other "
-                  "than PI in rounded arithmetic (E-tier + oracle with exact rational floor(2p/d)). "),
+                  "[0, 2pi_f + 1e-10 + (24|x|+46)*2^-53] - the forward angle within one turn (negative_forward_float), and the same for every divisor on the general "
+                  "path (negative_forward_general_float). "),
          "note": S_NOTE},
  "C03": {"level": ("Proved for all canonical angles of any blade count: 12 spellings identical (G), bit-for-bit commutativity, zero identity, blade = sum with at most one "
                   "carry, invariant preserved, |T(a+b) - (T a + T b)| < 1e-10 + 1e-15 in rounded arithmetic (S); associativity of totals within twice the tolerance (at "
